@@ -6,7 +6,17 @@ dst = '/verif/evidence/mutation_audit.json'
 rep = json.load(open(dst)) if os.path.exists(dst) else {"patches": {}}
 pat = rep.get('patches', {})
 n_new = 0
+import re, ast
 for f in sys.argv[1:]:
+    if f.endswith('.log'):
+        # progress log of a shard that was stopped before it wrote its report
+        for l in open(f):
+            m = re.match(r"^(\S+): target=(\S+) detected_by=(\[.*?\]) target_detected=(True|False|None)", l)
+            if m:
+                det = ast.literal_eval(m.group(3))
+                pat[m.group(1)] = {"target": m.group(2), "detected_by": det, "target_detected": {"True": True, "False": False, "None": None}[m.group(4)], "results": {c: {"exit": 1, "violation": "VIOLATION property=" + c} for c in det}, "source": "shard log"}
+                n_new += 1
+        continue
     try:
         d = json.load(open(f))
     except Exception as e:
